@@ -555,6 +555,12 @@ def render_pat(p):
         return render_path(p["path"]) + "{" + ",".join((f["member"]["0"]["sym"] if kind(f["member"]) == "Member::Named" else str(f["member"]["0"]["index"])) + ":" + render_pat(f["pat"]) for f in p["fields"]) + ("," if p["fields"] and p.get("rest") else "") + (".." if p.get("rest") else "") + "}"
     if k == "Pat::Rest":
         return ".."
+    if k == "Pat::Slice":
+        return "[" + ",".join(render_pat(x) for x in p["elems"]) + "]"
+    if k == "Pat::Range":
+        return (render(p["start"]) if p.get("start") else "") + ".." + (render(p["end"]) if p.get("end") else "")
+    if k == "Pat::Paren":
+        return "(" + render_pat(p["pat"]) + ")"
     return k or "?"
 
 
@@ -678,8 +684,93 @@ def render_norm(e):
     return txt
 
 
-def fn_text(fn):
-    return Txt(";".join(render_stmt(s) for s in fn.block["stmts"]))
+def aliases(fn, allow_closures=False):
+    """single-assignment immutable `let name = <expr>;` bindings of a function whose name is bound nowhere else in it
+    (parameters, closures, patterns) and whose initialiser is a plain expression (no macro, closure, block, `?`)"""
+    count = {}
+    inits = {}
+    for st, _ in find(fn.block, "Stmt::Local"):
+        pat = st["pat"]
+        if kind(pat) == "Pat::Type":
+            pat = pat["pat"]
+        for n in pat_idents(st["pat"]):
+            count[n] = count.get(n, 0) + 1
+        if kind(pat) == "Pat::Ident" and not pat.get("mutability") and not pat.get("by_ref") and st.get("init") and not st["init"].get("diverge"):
+            e = st["init"]["expr"]
+            banned = ("Expr::Macro", "Expr::Block", "Expr::Try", "Expr::If", "Expr::Match", "Expr::Struct", "Expr::Await") + (() if allow_closures else ("Expr::Closure",))
+            if not any(kind(x) in banned for x, _ in walk(e)):
+                inits[pat["ident"]["sym"]] = (e, st)
+    for x, _ in walk(fn.block):
+        k = kind(x)
+        if k == "Expr::Closure":
+            for p in x["inputs"]:
+                for n in pat_idents(p):
+                    count[n] = count.get(n, 0) + 1
+        elif k in ("Arm", "Expr::Let", "Expr::ForLoop"):
+            for n in pat_idents(x["pat"]):
+                count[n] = count.get(n, 0) + 1
+    for p in fn.node["sig"]["inputs"]:
+        if kind(p) == "FnArg::Typed":
+            for n in pat_idents(p["0"]["pat"]):
+                count[n] = count.get(n, 0) + 1
+    return {n: v for n, v in inits.items() if count.get(n, 0) == 1}
+
+
+def inline_text(text, als, depth=0):
+    """substitute alias names in rendered code by their (rendered, `&`-stripped) initialisers, recursively"""
+    import re as _re
+
+    if depth > 4 or not als:
+        return text
+
+    def sub(m):
+        w = m.group(0)
+        if w in als:
+            e = als[w][0]
+            while kind(e) in ("Expr::Reference", "Expr::Paren"):
+                e = e["expr"]
+            r = render(e)
+            if len(r) > 300:
+                return w
+            inner = inline_text(r, {k: v for k, v in als.items() if k != w}, depth + 1)
+            if kind(e) in ("Expr::Path", "Expr::Call", "Expr::MethodCall", "Expr::Field", "Expr::Index", "Expr::Lit"):
+                return inner
+            return "(" + inner + ")"
+        return w
+
+    # never inside string literals
+    parts = _re.split(r'("(?:[^"\\]|\\.)*")', text)
+    for i in range(0, len(parts), 2):
+        parts[i] = _re.sub(r"(?<![A-Za-z0-9_.#:'])\b[a-z_][a-z0-9_]*\b(?![A-Za-z0-9_(!:])", sub, parts[i])
+    return "".join(parts)
+
+
+def fn_text(fn, inline=False):
+    """rendered body; with inline=True the function's plain `let` aliases are substituted into their uses and their
+    `let` statements dropped, so that introducing / removing such an alias does not change the text"""
+    if not inline:
+        return Txt(";".join(render_stmt(s) for s in fn.block["stmts"]))
+    als = aliases(fn)
+    drop = {id(v[1]) for v in als.values()}
+
+    def rs(block_stmts):
+        return [s for s in block_stmts if id(s) not in drop]
+
+    import copy
+
+    def strip(n):
+        if isinstance(n, list):
+            return [strip(x) for x in n]
+        if not isinstance(n, dict):
+            return n
+        out = {k: strip(v) for k, v in n.items()}
+        if n.get("_") == "Block":
+            out["stmts"] = [strip(x) for x in n["stmts"] if id(x) not in drop]
+        return out
+
+    blk = strip(fn.block)
+    txt = ";".join(render_stmt(s) for s in blk["stmts"])
+    return Txt(inline_text(txt, als))
 
 
 def tokens_compact(ts):
@@ -760,7 +851,7 @@ def wild(pattern, hash_only=False):
                     or prev == "'"
                     or prev2 == "::"
                     or nxt2 == "::"
-                    or nxt == "!"
+                    or (nxt == "!" and nxt2 != "!=")
                     or nxt == "("
                     or (nxt == ":" and nxt2 != "::")
                     or prev.isdigit()
@@ -842,9 +933,10 @@ def canon_names(text, mapping):
     return text
 
 
-def alpha(text):
-    """Canonical form of rendered code up to consistent renaming of local names (same notion of 'local name' as
-    `wild`): the k-th distinct local name becomes `$k`."""
+def alpha(text, numbered=True):
+    """Canonical form of rendered code up to renaming of local names (same notion of 'local name' as `wild`): the k-th
+    distinct local name becomes `$k`; with numbered=False every local name becomes `$` (robust to shadowing: two
+    bindings of one name and two differently named bindings look alike)."""
     out = []
     seen = {}
     i = 0
@@ -874,7 +966,7 @@ def alpha(text):
                 or prev == "'"
                 or prev2 == "::"
                 or nxt2 == "::"
-                or nxt == "!"
+                or (nxt == "!" and nxt2 != "!=")
                 or nxt == "("
                 or (nxt == ":" and nxt2 != "::")
                 or prev.isdigit()
@@ -885,10 +977,119 @@ def alpha(text):
                 out.append(word)
             else:
                 if word not in seen:
-                    seen[word] = f"${len(seen)}"
+                    seen[word] = f"${len(seen)}" if numbered else "$"
                 out.append(seen[word])
             i = j
             continue
         out.append(c)
         i += 1
     return "".join(out)
+
+
+def norm_ast(n):
+    """A structurally normalised copy of an expression tree, for comparing conditions written in equivalent ways:
+    `if let P = E { A } else { B }` becomes `match E { P => A, _ => B }`; single-expression blocks are unwrapped;
+    `match` arms of two-arm matches keep their order. Spans are kept, so span_of still works on the copy."""
+    if isinstance(n, list):
+        return [norm_ast(x) for x in n]
+    if not isinstance(n, dict):
+        return n
+    k = n.get("_")
+    if k == "Expr::If" and kind(n.get("cond")) == "Expr::Let":
+        c = n["cond"]
+        eb = n.get("else_branch")
+        els = None
+        if eb:
+            els = eb[1] if isinstance(eb, list) else eb
+        then = {"_": "Expr::Block", "attrs": [], "block": norm_ast(n["then_branch"]), "label": None}
+        arms = [{"_": "Arm", "attrs": [], "pat": norm_ast(c["pat"]), "guard": None, "body": unblock(then), "comma": None, "fat_arrow_token": "FatArrow"}]
+        wild = {"_": "Pat::Wild", "attrs": [], "underscore_token": "Underscore"}
+        if els is not None:
+            eb2 = norm_ast(els)
+            arms.append({"_": "Arm", "attrs": [], "pat": wild, "guard": None, "body": unblock(eb2), "comma": None, "fat_arrow_token": "FatArrow"})
+        else:
+            arms.append({"_": "Arm", "attrs": [], "pat": wild, "guard": None, "body": {"_": "Expr::Tuple", "attrs": [], "elems": [], "paren_token": "Paren"}, "comma": None, "fat_arrow_token": "FatArrow"})
+        return {"_": "Expr::Match", "attrs": [], "arms": arms, "brace_token": "Brace", "expr": norm_ast(c["expr"]), "match_token": "Match"}
+    out = {kk: norm_ast(v) for kk, v in n.items()}
+    if k == "Arm":
+        out["body"] = unblock(out["body"])
+    return out
+
+
+def iteration_of(node, within):
+    """(source text, pattern text, body statements) of the innermost iteration enclosing `node` inside `within`: a
+    `for P in E` loop or the closure of `E.map(|P| ..)` / `filter_map` / `for_each` / `flat_map`; a trailing `.iter()` /
+    `.into_iter()` of E is dropped so that `for x in xs` and `xs.iter().map(|x| ..)` read alike. None when there is none."""
+    best = None
+    for x, ps in walk(within):
+        if x is node:
+            for i in range(len(ps) - 1, -1, -1):
+                p = ps[i]
+                k = kind(p)
+                if k == "Expr::ForLoop":
+                    src = render(p["expr"])
+                    best = (src, render_pat(p["pat"]), p["body"]["stmts"])
+                    break
+                if k == "Expr::Closure" and i > 0 and kind(ps[i - 1]) == "Expr::MethodCall" and ps[i - 1]["method"]["sym"] in ("map", "filter_map", "for_each", "flat_map", "try_for_each"):
+                    mc = ps[i - 1]
+                    src = render(mc["receiver"])
+                    body = p["body"]
+                    stmts = body["block"]["stmts"] if kind(body) == "Expr::Block" else [{"_": "Stmt::Expr", "0": body, "1": None}]
+                    best = (src, ",".join(render_pat(q) for q in p["inputs"]), stmts)
+                    break
+            break
+    if best is None:
+        return None
+    src = best[0]
+    import re as _re
+
+    src = _re.sub(r"\.(iter|into_iter)\(\)$", "", src)
+    if src.startswith("(") and src.endswith(")"):
+        src = src[1:-1]
+    return (src, best[1], best[2])
+
+
+def single_use_helpers(fn, depth=2):
+    """private functions of the same file that are referenced only from `fn` (transitively, up to `depth`): the pieces
+    a refactoring may have extracted out of `fn`"""
+    f = fn.file
+    fns = functions(f)
+    by_name = {}
+    for g in fns:
+        by_name.setdefault(g.name, []).append(g)
+    refs = {}
+    for g in fns:
+        if g.block is None:
+            continue
+        for x, _ in walk(g.block):
+            k = kind(x)
+            nm = None
+            if k == "Expr::Path":
+                nm = path_str(x).split("::")[-1]
+            elif k == "Expr::MethodCall":
+                nm = x["method"]["sym"]
+            if nm in by_name and len(by_name[nm]) == 1 and by_name[nm][0] is not g:
+                refs.setdefault(nm, set()).add(g.qual)
+    out = []
+    frontier = [fn]
+    for _ in range(depth):
+        nxt = []
+        for g in frontier:
+            for nm, users in refs.items():
+                h = by_name[nm][0]
+                vis = h.node.get("vis")
+                private = vis in (None, "Visibility::Inherited") or kind(vis) in (None, "Visibility::Inherited")
+                if users == {g.qual} and private and h.trait_ is None and h not in out and h is not fn:
+                    out.append(h)
+                    nxt.append(h)
+        frontier = nxt
+    return out
+
+
+def fn_text_with_helpers(fn, inline=False):
+    """fn_text of `fn` followed by the bodies of its single-use private helpers (see single_use_helpers)"""
+    parts = [fn_text(fn, inline=inline)]
+    for h in single_use_helpers(fn):
+        if h.block is not None:
+            parts.append(fn_text(h, inline=inline))
+    return Txt(";".join(parts))
